@@ -18,5 +18,6 @@ let dispatch fnum z nat entry (is : int list) (xs : Obj.t list) : Obj.t list res
   | "rotate", [] -> run_rotate fnum xs
   | "polar_left", [] -> run_polar_left fnum xs
   | "polar_right", [] -> run_polar_right fnum xs
+  | "decomp", [] -> run_decomp fnum xs
   | "voigt", is -> run_voigt fnum (List.map z is) xs
   | _ -> Err OtherError
